@@ -210,6 +210,12 @@ def main(tier, seed):
                 h = symh(hl); fr = [(3 * M, 0), (M, 3 * M), (2 * M, M, M)]
                 jobs.append((f'{KN[kind]} {L}/{M} h{hl}', 'conv', dict(kind=kind, ip=ip, h=h, frames=fr, seed=seed), 1500))
                 if hl == 3 * max(L, M): jobs.append((f'FIRResampler {L}/{M} h{hl}', 'conv', dict(kind=7, ip=[2 * L, 2 * M], h=h, frames=fr, seed=seed), 1500))
+    # larger coprime ratios (the per-phase branch / offset tables differ in kind from the small ones: more phases than taps per phase, offsets that step by 2 or more), short taps, two framings
+    for (L, M) in ([(5, 7), (7, 6), (9, 4), (11, 2), (11, 3), (5, 12), (13, 9), (7, 5)] if q else [(a, b) for a in range(2, 17) for b in range(2, 17) if math.gcd(a, b) == 1 and max(a, b) > 8]):
+        jobs.append((f'FIRRateConverter {L}/{M} short h', 'conv', dict(kind=6, ip=[L, M], h=symh(2 * max(L, M) + 1), frames=[(2 * M, 0), (M, M)], seed=seed), 1500))
+    # taps whose sum is negative (polarity-inverted low-pass): h normalised to DC gain L means the sign of the sum is kept
+    for (kind, ip) in ((4, [3]), (5, [2]), (6, [2, 3]), (7, [4, 6])):
+        jobs.append((f'{KN[kind]} negative-sum taps', 'conv', dict(kind=kind, ip=ip, h=[-v for v in symh(9)], frames=[(6, 0), (3, 3)], seed=seed), 1500))
     for (L, M) in ([(1, 2), (2, 1), (3, 2)] if q else [(1, 2), (2, 1), (3, 2), (2, 3), (1, 3), (3, 1), (4, 3)]):
         kind = 4 if L == 1 else 5 if M == 1 else 6; ip = [M] if kind == 4 else [L] if kind == 5 else [L, M]
         jobs.append((f'{KN[kind]} {L}/{M} default', 'conv', dict(kind=kind, ip=ip, h=[], frames=[(2 * M, 0), (M, M)], seed=seed), 3000))
@@ -228,7 +234,7 @@ def main(tier, seed):
                    'certifies the code as a fixed matrix, which must equal, at ONE phase shared by all framings, the exact matrix of: insert L-1 zeros, filter with h*L/sum(h), keep every M-th; '
                    'output count len*L/M; frames not a multiple of M end in a throw. resample(): output length, identity for p = q (same terms), impulse-response centroid within one output sample of i*q/p.',
         assumptions=['REAL arithmetic for the data path', 'phase searched over [-|h|-LM, |h|+LM]', 'alignment judged by the energy centroid of impulse responses away from the edges'],
-        bounds={'ratios': f'all reduced L/M with L,M <= {LM[-1]}' + ('' if q else ' + 160/441, 147/160, 160/147 (short h)'), 'taps': '2..4*max(L,M)+2 random symmetric; default design for small ratios', 'frames': 'one call and two calls'},
+        bounds={'ratios': f'all reduced L/M with L,M <= {LM[-1]} + ' + ('8 larger coprime ratios up to 13' if q else 'every coprime ratio up to 16') + ('' if q else ' + 160/441, 147/160, 160/147 (short h)'), 'taps': '2..4*max(L,M)+2 random symmetric; default design for small ratios', 'frames': 'one call and two calls'},
         outside=['pass-band accuracy of the default design', 'long inputs', 'rounding'], seed=seed, selftest=selftest)
 
 def replay(path): return replay_main(path, ORACLES)
